@@ -134,7 +134,8 @@ func validateServerLedActivationToken(
 	// Generate the ID from the token values for lookup
 	hm := hmac.New(sha256.New, tokenNonce.HmacKeyBytes)
 	idBytes := hm.Sum(tokenNonce.Nonce)
-	tokenEntry, err := types.LoadServerLedActivationToken(ctx, storage, base58.FastBase58Encoding(idBytes), opt...)
+	tokenId := base58.FastBase58Encoding(idBytes)
+	tokenEntry, err := types.LoadServerLedActivationToken(ctx, storage, tokenId, opt...)
 	if err != nil {
 		return nil, fmt.Errorf("(%s) error looking up activation token: %w", op, err)
 	}
@@ -166,7 +167,10 @@ func validateServerLedActivationToken(
 	// transaction). If possible, storage should communicate anything unexpected
 	// (such as the value not being found) as an error so we don't proceed
 	// towards authorization.
-	if err := storage.Remove(ctx, tokenEntry); err != nil {
+	//
+	// Remove it under the ID it was looked up with, and without handing the
+	// loaded entry (whose creation time has been unwrapped) back to storage.
+	if err := storage.Remove(ctx, &types.ServerLedActivationToken{Id: tokenId}); err != nil {
 		return nil, fmt.Errorf("(%s) error removing server-led activation token: %w", op, err)
 	}
 
